@@ -9,7 +9,7 @@ MAX_MODEL_ITERS = 400
 TRUSTED = [
     "user cost / constraints / penalty are recorded tables in the correspondence run and universally quantified section variables in the theorems",
     "the trial vectors of the DE strategies, the Nelder-Mead candidate points, numpy.argsort's permutation and the population after (re)decoration are oracle inputs of the machine model (recorded from /repo in the correspondence; arbitrary in the theorems); their arithmetic is the subject of C08",
-    "tight/clip modes of SetStrictRanges (bounds imposed through constraints.and_) are outside the machine model: covered by the oracle only",
+    "tight / clip=True modes of SetStrictRanges: the function the solvers apply wherever they apply the constraints (constraints.and_ of the user's constraints and the bounds function) is recorded as the constraints table of that configuration (machine op OSetRangesCons); and_ itself is C17's model; clip=False (random re-draws) and pins that conflict with the box (and_ randomises) are covered by the oracle only",
 ]
 ASSUMPTIONS = ["no NaN energies (finite-or-infinite energies only)", "in-process map", "the ensemble solvers are covered by the oracle only, not by the machine model (their own model is C09's); Powell's line searches are oracle inputs"]
 
